@@ -16,7 +16,8 @@ LABELSETS = {
     "punct": ["a b", "a-b", "x(y)", "p,q", "a", "b", "100%", "%s", "{0}", "a\\b"],
     "empty": ["", "a", "b", ""],
     "padded": [" a", "b ", " c ", "\ta", "a", "b\n", "  ", "\xa0a", "b\u2003", "\r c", "a\x0b"],
-    "unicode": ["é", "日本", "ß", "a", "ö-b"],
+    "unicode": ["é", "日本", "ß", "a", "ö-b", "e\u0301", "\u212b", "\U0001f600a", "\uffffz", "\U00010330"],
+    "numeric": ["9", "10", "2", "100", "1.5", "-3", "1e3"],
 }
 NAMES = ["a", "b", "c", "d"]
 NAMESETS = {
@@ -25,6 +26,9 @@ NAMESETS = {
     "odd": ["", "a ", "A", "a"],
     "unicode": ["é", "日本", "ß", "a"],
     "many": ["t%d" % i for i in range(10)],
+    "braces": ["a{0}", "{x}", "b}", "%s"],
+    "nfc": ["caf\u00e9", "cafe\u0301", "a", "\u212b"],
+    "glob": ["a*", "a[1]", "?", "ab"],
 }
 
 CROP_MODES = ["strict", "lax", "truncated"]
